@@ -118,21 +118,29 @@ def to_yaml_doc(spec, style=None):
     def acc(x):
         return ACCESS_WORD[x] if access_form == "word" else int(x)
 
+    def num(x, is_prob=False):
+        # surface variants of the same number: 1 <-> 1.0
+        if style.get("float_numbers") and isinstance(x, int) and not isinstance(x, bool):
+            return float(x)
+        if style.get("int_numbers") and isinstance(x, float) and x == int(x):
+            return int(x)
+        return x
+
     doc["exploits"] = {}
     for n, e in spec["exploits"].items():
         doc["exploits"][n] = {
             "service": e["service"], "os": os_none if e["os"] is None else e["os"],
-            "prob": e["prob"], "cost": e["cost"], "access": acc(e["access"])}
+            "prob": num(e["prob"]), "cost": num(e["cost"]), "access": acc(e["access"])}
     doc["privilege_escalation"] = {}
     for n, e in spec["privescs"].items():
         doc["privilege_escalation"][n] = {
             "process": e["process"], "os": os_none if e["os"] is None else e["os"],
-            "prob": e["prob"], "cost": e["cost"], "access": acc(e["access"])}
+            "prob": num(e["prob"]), "cost": num(e["cost"]), "access": acc(e["access"])}
     sc = spec["scan_costs"]
-    doc["service_scan_cost"] = sc["service"]
-    doc["os_scan_cost"] = sc["os"]
-    doc["subnet_scan_cost"] = sc["subnet"]
-    doc["process_scan_cost"] = sc["process"]
+    doc["service_scan_cost"] = num(sc["service"])
+    doc["os_scan_cost"] = num(sc["os"])
+    doc["subnet_scan_cost"] = num(sc["subnet"])
+    doc["process_scan_cost"] = num(sc["process"])
     doc["host_configurations"] = {}
     for a in host_listing_order(spec):
         h = spec["hosts"][a]
@@ -141,7 +149,10 @@ def to_yaml_doc(spec, style=None):
             cfg["firewall"] = {str(k): list(v) for k, v in h.get("firewall", {}).items()}
         if "value" in h and not (style.get("omit_zero_value") and float(h["value"]) == 0.0
                                  and a not in spec["sensitive_hosts"]):
-            cfg["value"] = h["value"]
+            cfg["value"] = num(h["value"])
+        if style.get("repeat_sensitive_value") and a in spec["sensitive_hosts"]:
+            # the documentation allows a sensitive host to repeat its (matching) value
+            cfg["value"] = spec["sensitive_hosts"][a]
         doc["host_configurations"][str(a)] = cfg
     doc["firewall"] = {str(k): list(v) for k, v in spec["firewall"].items()}
     if spec.get("step_limit") is not None:
